@@ -48,8 +48,20 @@ def _gen_kw(case):
     return kw
 
 
-def _fresh_srf(model, g, kw, seed, mean=0.0):
-    return gs.SRF(copy.deepcopy(model), mean=mean, generator=g, seed=seed, **kw)
+def _rebuild(model):
+    """A model constructed directly from the public parameter values of `model` (nothing internal is carried over)."""
+    kwm = dict(dim=int(model.dim), var=float(model.var), len_scale=float(model.len_scale), nugget=float(model.nugget), rescale=float(model.rescale))
+    if model.dim > 1:
+        kwm["anis"] = [float(a) for a in model.anis]
+        kwm["angles"] = [float(a) for a in model.angles]
+    for o in model.opt_arg:
+        kwm[o] = float(getattr(model, o))
+    with quiet():
+        return type(model)(**kwm)
+
+
+def _fresh_srf(model, g, kw, seed, mean=0.0, rebuild=False):
+    return gs.SRF(_rebuild(model) if rebuild else copy.deepcopy(model), mean=mean, generator=g, seed=seed, **kw)
 
 
 @st.composite
@@ -251,6 +263,9 @@ def gen_history(draw, tier="quick", twin=False):
         kinds += ["mode_no", "sampling"]
     if not twin:
         kinds += ["move_pos", "move_pos"]
+    if not twin and g != "Fourier" and spec["cls"] not in ("JBessel",):
+        # the dimension of the model assigned in place (classes with dimension-dependent argument bounds stay out: C14's K6)
+        kinds += ["dim"]
     ops = []
     for _ in range(nops):
         k = draw(st.sampled_from(kinds))
@@ -269,6 +284,8 @@ def gen_history(draw, tier="quick", twin=False):
             # large (projected-coordinate like) values where a small move is tiny in relative terms
             op["how"] = draw(st.sampled_from(["rel", "abs", "offset"]))
             op["v"] = draw(st.sampled_from([3e-6, 1e-7, 5e-9])) if op["how"] != "offset" else draw(st.sampled_from([1e5, 3e6]))
+        elif k == "dim":
+            op["v"] = draw(st.sampled_from([2, 3] if g == "VectorField" else [1, 2, 3]))
         elif k == "mode_no":
             op["v"] = draw(st.sampled_from([8, 16, 32, 64]))
         elif k == "sampling":
@@ -410,7 +427,7 @@ def check_history(case, rec):
                         f = srf(pos)
                     moved = False
                     _consistent(srf.generator, g, otags, where)
-                    ref = _fresh_srf(um, g, kw, cur_seed)(pos)
+                    ref = _fresh_srf(um, g, kw, cur_seed, rebuild=True)(pos)
                     scale = math.sqrt(float(um.var)) * (kw.get("mean_velocity", 1.0))
                     tol = 1e-9 * max(scale, 1e-300)
                     err = float(np.max(np.abs(np.asarray(f) - np.asarray(ref))))
@@ -438,7 +455,22 @@ def check_history(case, rec):
                     else:
                         pos = pos + op["v"] * (1.0 + 0.1 * np.arange(dim))[:, None]
                 elif k == "param":
+                    if op["name"] in ("anis", "angles") and um.dim == 1:
+                        continue
                     _apply_param(um, op, spec)
+                elif k == "dim":
+                    d2 = int(op["v"])
+                    if d2 != um.dim and d2 <= gens.max_valid_dim(spec["cls"]):
+                        um.dim = d2
+                        rec.label(f"dim_assigned_{dim}to{d2}")
+                        # the request points of the new dimension (deterministic continuation of the old ones)
+                        if d2 < pos.shape[0]:
+                            pos = pos[:d2].copy()
+                        else:
+                            pos = np.vstack([pos] + [0.37 * pos[0:1] + 0.1 * (r + 1) for r in range(d2 - pos.shape[0])])
+                        dim = d2
+                        spec = dict(spec, dim=d2)
+                        moved = True
                 elif k == "restore":
                     m2 = copy.deepcopy(orig)
                     um.var = m2.var
